@@ -646,6 +646,51 @@ func Chain(rng *rand.Rand, n int) *Topo {
 	return b.t
 }
 
+// Fork builds a single-ISD topology with long segments that share most of
+// their length: one core AS, a stem of `stem` nested customers, and below the
+// last stem AS two branches of `a` and `b` nested customers. With peer set the
+// two branches are joined by peering links between ASes of equal depth. Up
+// segments of branch ASes have up to 1+stem+max(a,b) entries while the
+// shortcut and peering paths between the branches need only a handful of hops.
+func Fork(rng *rand.Rand, stem, a, b int, peer bool) *Topo {
+	stem = min(max(stem, 1), 60)
+	a, b = max(a, 1), max(b, 1)
+	for 1+stem+max(a, b) > 64 {
+		stem--
+	}
+	bl := &builder{rng: rng, t: &Topo{ASes: map[addr.IA]*AS{}, Family: "fork"}}
+	usedAS := map[addr.AS]bool{}
+	isd := addr.ISD(1 + rng.IntN(20))
+	prev := bl.addAS(addr.MustIAFrom(isd, bl.asNumber(usedAS)), true, 0)
+	for k := 1; k <= stem; k++ {
+		x := bl.addAS(addr.MustIAFrom(isd, bl.asNumber(usedAS)), false, k)
+		bl.link(prev, x, topology.Child)
+		prev = x
+	}
+	var branches [2][]*AS
+	for bi, n := range []int{a, b} {
+		p := prev
+		for k := 1; k <= n; k++ {
+			x := bl.addAS(addr.MustIAFrom(isd, bl.asNumber(usedAS)), false, stem+k)
+			bl.link(p, x, topology.Child)
+			branches[bi] = append(branches[bi], x)
+			p = x
+		}
+	}
+	if peer {
+		for k := 0; k < min(a, b); k++ {
+			if k == 0 || rng.IntN(2) == 0 {
+				bl.link(branches[0][k], branches[1][k], topology.Peer)
+			}
+		}
+	}
+	bl.assignBRs()
+	if err := bl.t.Validate(); err != nil {
+		panic("simtopo: generated fork invalid: " + err.Error())
+	}
+	return bl.t
+}
+
 // String renders the topology compactly (one line per link) for witnesses.
 func (t *Topo) String() string {
 	s := ""
